@@ -705,9 +705,9 @@ func init() {
 	})
 	register(&Prop{
 		ID: "C06", Level: "exploration", Batch: 30, PerCaseTimeout: 70 * time.Second,
-		Rule:  "cases 0..485: bounded-exhaustive box — every subset of the five check groups x every pass/fail assignment (3^5=243) at plan level and at block level on a 1-block/2-sequence skeleton; cases >= 486: PRNG(seed,i) plans with bypass failure probability 0.5 and pre/cont failure 0.3; distinct by final-status hash",
+		Rule:  "cases 0..485: bounded-exhaustive box — every subset of the five check groups x every pass/fail assignment (3^5=243) at plan level and at block level on a 1-block/2-sequence skeleton; cases >= 486: PRNG(seed,i) plans with bypass failure probability 0.5 and pre/cont failure 0.3, every 15th of them explores every crash point of a plan whose gate (bypass passed / pre-checks or the initial continuous run failed) is decided while the other gating group is still executing, with checks that in half of the plans answer differently after the restart, and requires that a gate durably decided at the crash is not taken again; distinct by final-status hash",
 		Cases: nCases(486+150, 486+5000),
-		Run: engineRun("C06", gateProfile, func(c *eng.Case, run *eng.Run, pr *eng.PlanRun, t *oracle.Trace, res *CaseResult) {
+		Run: c06Dispatch(engineRun("C06", gateProfile, func(c *eng.Case, run *eng.Run, pr *eng.PlanRun, t *oracle.Trace, res *CaseResult) {
 			res.Viols = append(res.Viols, oracle.C06(pr.Spec, t, pr.P0)...)
 			if pr.Spec.Bypass != nil {
 				res.Counters["plans_with_bypass"]++
@@ -715,16 +715,16 @@ func init() {
 			if pr.P0.Status("P.bypass") == spec.Completed {
 				res.Counters["plans_bypassed"]++
 			}
-		}, true),
+		}, true)),
 		RaceAttr:      func(ev.RaceBlock) bool { return false },
 		MinNontrivial: 30,
 		Assumptions:   []string{"'initial run of a continuous check' is the first run of that group in the scope, whether or not the scope also has pre-checks"},
 	})
 	register(&Prop{
 		ID: "C07", Level: "exploration", Batch: 16, PerCaseTimeout: 70 * time.Second,
-		Rule:  "case i = PRNG(seed,i) from the 'cont' profile (continuous checks in 60% of scopes, failing at run k in 1..6, deferred checks in 60% of scopes; every 8th case the busy-cont template with a failing run k in 2..6 that is typically in flight when the scope ends; every 8th case a bounded-progress rendezvous: a sequence action returns only after the scope's continuous check ran k more times); non-trivial = a continuous check failed or a deferred group existed; distinct by final-status hash",
+		Rule:  "case i = PRNG(seed,i) from the 'cont' profile (continuous checks in 60% of scopes, failing at run k in 1..6, deferred checks in 60% of scopes; every 8th case the busy-cont template with a failing run k in 2..6 that is typically in flight when the scope ends; every 8th case a bounded-progress rendezvous: a sequence action returns only after the scope's continuous check ran k more times); every 40th case explores every crash point of a plan with failing stages and deferred checks in every scope and requires in the recovered plan: deferred checks of entered scopes ran (once), a continuous failure durable at the crash still fails its scope; non-trivial = a continuous check failed or a deferred group existed; distinct by final-status hash",
 		Cases: nCases(400, 8000),
-		Run: engineRun("C07", contProfile, func(c *eng.Case, run *eng.Run, pr *eng.PlanRun, t *oracle.Trace, res *CaseResult) {
+		Run: everyNth(40, c07Crash, engineRun("C07", contProfile, func(c *eng.Case, run *eng.Run, pr *eng.PlanRun, t *oracle.Trace, res *CaseResult) {
 			r := oracle.C07(pr.Spec, t, pr.P0)
 			res.Viols = append(res.Viols, r.Viols...)
 			for z, n := range r.Zones {
@@ -735,7 +735,7 @@ func init() {
 					res.Viols = append(res.Viols, ev.V("C07", "cont-not-rerun", inv.Addr.Scope()[:1], "sequence action %s waited 8 s for further runs of the scope's continuous check, which never came", inv.Tag))
 				}
 			}
-		}, true),
+		}, true)),
 		RaceAttr:      raceHas("runContChecks", "contChecksPassing"),
 		MinNontrivial: 30,
 		Finish: func(tier string, counters map[string]int, cov map[string]any) string {
@@ -961,6 +961,16 @@ func c08Dispatch(normal func(c *Ctx, idx int) CaseResult) func(c *Ctx, idx int) 
 }
 
 // everyNth runs special for every n-th case (idx % n == n-1) and normal otherwise.
+// c06Dispatch keeps the exhaustive box (cases 0..485) intact and turns every 15th of the later cases into a crash case.
+func c06Dispatch(normal func(c *Ctx, idx int) CaseResult) func(c *Ctx, idx int) CaseResult {
+	return func(c *Ctx, idx int) CaseResult {
+		if idx >= 486 && (idx-486)%15 == 14 {
+			return c06Crash(c, idx)
+		}
+		return normal(c, idx)
+	}
+}
+
 func everyNth(n int, special, normal func(c *Ctx, idx int) CaseResult) func(c *Ctx, idx int) CaseResult {
 	return func(c *Ctx, idx int) CaseResult {
 		if idx%n == n-1 {
